@@ -9,7 +9,7 @@ The full statement is **false of the code** in three recorded ways (each confirm
              `Token.Validate` then rejects the chain's own export;
 * F-gen-10 — `MsgUpdateParams` accepts a base-fee denom that is not a registered token symbol;
              `InitGenesis` then panics;
-* F-gen-11 — `DeployERC20` for an ICS20 denom stores a token whose min unit (`ibc/…`) and possibly
+* F-gen-13 — `DeployERC20` for an ICS20 denom stores a token whose min unit (`ibc/…`) and possibly
              symbol `Token.Validate` rejects.
 The file carries the full statement, its negation from one witness per class, and the strongest
 true form: every reachable state outside the three (decidable) classes round-trips.
@@ -163,7 +163,7 @@ theorem witness10_outcome :
     (match reimport (run (genesis0 wBank {}) witness10) with | .error (.panic _) => true | _ => false) = true := by
   decide +kernel
 
-/-- **F-gen-11**: `DeployERC20` for the ICS20 denom `ibc/DEAD0` stores a token with that min unit,
+/-- **F-gen-13**: `DeployERC20` for the ICS20 denom `ibc/DEAD0` stores a token with that min unit,
 which `Token.Validate` rejects (`/`, upper case, the reserved prefix `ibc`) -/
 def witness11 : List Op := [.updateParams "GOV" { beacon := true }, .deploy "GOV" "ics0" "ics0" "ibc/DEAD0" 6]
 
@@ -190,14 +190,14 @@ theorem not_FullRoundTrip_max_below_initial : ¬ FullRoundTrip :=
 theorem not_FullRoundTrip_fee_denom : ¬ FullRoundTrip :=
   fun h => not_roundTrip_of_panic witness10_outcome.2.2 (h wBank {} witness10)
 
-/-- … and by the witness of F-gen-11 -/
+/-- … and by the witness of F-gen-13 -/
 theorem not_FullRoundTrip_ics20_identity : ¬ FullRoundTrip :=
   fun h => not_roundTrip_of_invalid witness11_outcome.2.1 (h wBank {} witness11)
 
 /-- **C12/token, all reachable states (strongest true form)**: after any history of the 13
 operations from a genesis with valid parameters, if every token has `maxSupply ≥ initialSupply`
 (not F-gen-9), the base-fee denom is a registered symbol (not F-gen-10) and every token has a
-symbol and min unit `Token.Validate` accepts (not F-gen-11), then the export validates, the
+symbol and min unit `Token.Validate` accepts (not F-gen-13), then the export validates, the
 import succeeds, every query is preserved and the export is a fixpoint -/
 theorem tok_roundtrip_reachable_partial (bank : Bank) (p : Params) (env : Env) (hp : paramsValid p = true)
     (ops : List Op)
@@ -208,7 +208,7 @@ theorem tok_roundtrip_reachable_partial (bank : Bank) (p : Params) (env : Env) (
   tok_roundtrip _ (tok_reach bank p env hp ops) h9 h10 h11
 
 /-- a panicking import is exactly one of the classes: for a reachable state outside F-gen-9 and
-F-gen-11 the *only* way `InitGenesis` of the export can fail is the base-fee denom (F-gen-10) -/
+F-gen-13 the *only* way `InitGenesis` of the export can fail is the base-fee denom (F-gen-10) -/
 theorem tok_import_fails_only_by_fee_denom (s : State) (h : Reach s) (h9 : maxBelowInit s = false)
     (h11 : badIdentity s = false) (hfail : ∀ s', reimport s ≠ .ok s') : feeDenomUnregistered s = true := by
   cases h10 : feeDenomUnregistered s with
